@@ -323,6 +323,12 @@ class BaseApprox(Item):
         self.degree = self._normalize_degree(degree)
         super().__init__(**kwargs)
 
+    def _clone_item(self, cls, *args, **kwargs):
+        if self._implicit_degree:
+            # an implicit degree must stay implicit, so that the clone prints like the original
+            kwargs.setdefault("degree", None)
+        return super()._clone_item(cls, *args, **kwargs)
+
     def __repr__(self):
         return "%s(%s, %s)" % (self.__class__.__name__, self.term.__repr__(), self.degree)
 
@@ -375,6 +381,12 @@ class Boost(Item):
         self.force = Decimal(force).normalize() if force is not None else 1
         self.implicit_force = force is None
         super().__init__(**kwargs)
+
+    def _clone_item(self, cls, *args, **kwargs):
+        if self.implicit_force:
+            # an implicit force must stay implicit, so that the clone prints like the original
+            kwargs.setdefault("force", None)
+        return super()._clone_item(cls, *args, **kwargs)
 
     def __repr__(self):
         return "%s(%s, %s)" % (self.__class__.__name__, self.expr.__repr__(), self.force)
